@@ -1,0 +1,36 @@
+//go:build verif
+
+package witness
+
+import (
+	"github.com/google/certificate-transparency-go/internal/witness/api"
+	"github.com/google/certificate-transparency-go/internal/witness/cmd/witness/verifx"
+)
+
+// Witness is the witness implementation.
+type Witness = verifx.Witness
+
+// Opts are the witness construction options.
+type Opts = verifx.Opts
+
+// Server is the HTTP front end of the witness.
+type Server = verifx.Server
+
+// UpdateRequest is the body of an update request.
+type UpdateRequest = api.UpdateRequest
+
+// CosignedSTH is an STH with witness signatures.
+type CosignedSTH = api.CosignedSTH
+
+// HTTP paths of the witness API.
+const (
+	HTTPGetSTH  = api.HTTPGetSTH
+	HTTPUpdate  = api.HTTPUpdate
+	HTTPGetLogs = api.HTTPGetLogs
+)
+
+// New constructs a witness.
+var New = verifx.New
+
+// NewServer constructs the HTTP front end of a witness.
+var NewServer = verifx.NewServer
